@@ -1,7 +1,7 @@
 (* C11  The opcode-count knobs bound the size of the generated program. *)
 From Coq Require Import List NArith Bool.
 From PF Require Import Opcodes RefTable Config Sim Ref Lex Envelope Oracles.
-From PF.proofs Require Import Refine Run PropsR Examples.
+From PF.proofs Require Import Refine Run PropsR LexRT PropsB Examples.
 
 (* T = length steps freely chosen body opcodes, each exactly one token; header <= 2 tokens,
    collapse tail <= 2T+1 tokens, one STOP; T within the knobs (target_ok: min <= T < max when
@@ -13,6 +13,12 @@ Theorem C11_tokens : forall c framed steps, run_R c framed steps ->
     /\ target_ok c (N.of_nat (length steps)) = true.
 Proof. exact C11_R. Qed.
 Print Assumptions C11_tokens.
+
+(* on the bytes: the decoded output has between min+1 and 3*max(min,max)+4 opcodes *)
+Theorem C11_bytes : forall c framed steps, run_R c framed steps -> fits c framed steps ->
+  oracle_C11 c (serialize (run_tokens c framed steps)) = true.
+Proof. exact C11_B. Qed.
+Print Assumptions C11_bytes.
 
 Example C11_nonvacuous : run_R (ex_cfg V2 11) false ex_steps1 /\ length ex_steps1 = 11.
 Proof. exact (conj ex_run1 eq_refl). Qed.
